@@ -111,6 +111,8 @@ pub struct StepLite {
     pub pre: std::rc::Rc<Snap>,
     pub post: std::rc::Rc<Snap>,
     pub shortfall: bool,
+    /// last message of the transaction's message tree (the one that failed, when the transaction failed)
+    pub last_msg: String,
 }
 
 impl Monitor for TwinTap {
@@ -129,6 +131,7 @@ impl Monitor for TwinTap {
             pre: st.pre.clone(),
             post: st.post.clone(),
             shortfall: st.out.sum_transfers(w.insurance.as_str(), w.engine.as_str()) > 0,
+            last_msg: st.out.msg_tree.last().cloned().unwrap_or_default(),
         };
         TAP.with(|t| t.borrow_mut().push(std::rc::Rc::new(lite)));
     }
@@ -163,10 +166,11 @@ fn mirror(ha: &mut History, hb: &mut History, _mirrored: &mut usize, r: &mut Rep
         r.count(&format!("twin:{}:{}", sa.op.kind(), sa.path));
         let path_b = reply_path(&hb.w, &sb.out);
         let mut diffs: Vec<String> = vec![];
-        if !sa.ok && sb.out.ok && sa.err.contains("transfer failure") {
-            // the cw20 call failed in a token transfer (typically the caller cannot pay what would be
-            // pulled); "what the cw20 deployment would pull" is then undefined and the native call,
-            // which attached nothing, is not comparable: premise unsatisfiable, history ends here
+        if !sa.ok && sb.out.ok && sa.err.contains("transfer failure") && sa.last_msg.ends_with("transfer_from") {
+            // the cw20 call failed while PULLING tokens from the caller (the message that failed is a transfer_from:
+            // the caller cannot pay what would be pulled); "what the cw20 deployment would pull" is then undefined and
+            // the native call, which attached nothing, is not comparable: premise unsatisfiable, history ends here.
+            // A failure in any other transfer (a payout, an insurance-fund withdrawal) is an outcome like any other.
             r.count("skip:cw20-call-failed-in-a-transfer");
             return true;
         }
